@@ -537,10 +537,30 @@ func (fr *Frame) unop(x *ssa.UnOp) Value {
 	return Top{Taint: taintOf(v), Why: "unary " + x.Op.String()}
 }
 
+// asArrayBuf: a pointer to (or a whole-array slice of) a fixed byte array whose content has become symbolic - a string of
+// symbolic length was copied into it (a stack buffer used instead of an allocation) - is followed like a buffer of
+// symbolic length: the array's root cell then holds the content as an AbsSlice (its element cells are stale).
+func asArrayBuf(v Value) (BufRef, bool) {
+	switch x := v.(type) {
+	case Ptr:
+		if _, isA := x.C.Val.(AbsSlice); isA && len(x.C.Kids) > 0 {
+			return BufRef{C: x.C}, true
+		}
+	case SliceV:
+		if _, isA := x.Arr.Val.(AbsSlice); isA && len(x.Arr.Kids) > 0 && x.Lo == 0 {
+			return BufRef{C: x.Arr}, true
+		}
+	}
+	return BufRef{}, false
+}
+
 func (fr *Frame) indexAddr(x *ssa.IndexAddr) Value {
 	it := fr.it
 	base := fr.get(x.X)
 	iv := fr.get(x.Index)
+	if ab, isAB := asArrayBuf(base); isAB {
+		base = ab
+	}
 	if b, isBuf := base.(BufRef); isBuf {
 		if _, conc := it.bufConc(b); !conc {
 			t, okT := asTerm(iv)
@@ -614,6 +634,9 @@ func (fr *Frame) indexAddr(x *ssa.IndexAddr) Value {
 func (fr *Frame) slice(x *ssa.Slice) Value {
 	it := fr.it
 	base := fr.get(x.X)
+	if ab, isAB := asArrayBuf(base); isAB {
+		base = ab
+	}
 	if b, isBuf := base.(BufRef); isBuf {
 		if x.Low == nil && x.High == nil {
 			return b
@@ -633,9 +656,9 @@ func (fr *Frame) slice(x *ssa.Slice) Value {
 			}
 			if ok {
 				lo, hi = it.ApplyTerm(lo), it.ApplyTerm(hi)
-				l1, _ := lo.Bounds()
-				l2, _ := hi.Sub(lo).Bounds()
-				l3, _ := curLen.Sub(hi).Bounds()
+				l1 := it.lowerBound(lo)
+				l2 := it.lowerBound(hi.Sub(lo))
+				l3 := it.lowerBound(curLen.Sub(hi))
 				if l1.Sign() < 0 || l2.Sign() < 0 || l3.Sign() < 0 {
 					it.event("bounds", fr.fn, x.Pos(), "slice bounds [%s:%s] of a buffer of %s bytes not provably in range (possible run-time panic)", lo, hi, curLen)
 				}
